@@ -5,9 +5,9 @@ import streams as S
 import abnf as ABNF
 
 ID = "C03"
-MODULE = "JmesVerif.Props.C03"
+MODULE = "JmesVerif.Props.C03Lex"       # imports Props.C03 and re-prints its axioms
 THEOREMS = ["C03_sound", "C03_complete", "C03_language", "C03_no_fuel_tokens", "C03_number_tokens_in_range",
-            "C03_multiselect_nonempty", "C03_abnf_sound", "C03_abnf_complete", "C03_abnf_language", "C03_sentence_has_string", "C03_lex_table", "C03_lexOne_follows_table", "C03_whitespace", "T1_expr", "T2_expr"]
+            "C03_multiselect_nonempty", "C03_abnf_sound", "C03_abnf_complete", "C03_abnf_language", "C03_sentence_has_string", "C03_lex_table", "C03_lexOne_follows_table", "C03_whitespace", "T1_expr", "T2_expr", "C03_lex_table_actOf", "C03_lex_arms_disjoint", "C03_lbracket_alts"]
 TRUSTED_BASE = [
     "Lean 4.33 kernel; axioms propext, Classical.choice, Quot.sound only",
     "hand-written models Model/Lexer.lean, Model/JsonText.lean (serde_json's JSON text grammar, modelled), Model/Parser.lean of lexer.rs / parser.rs, "
